@@ -589,7 +589,7 @@ def mode_random(out_path: str) -> None:
     out = hlib.RecWriter(out_path)
     base = tempfile.mkdtemp(prefix='c13_')
     try:
-        ntraces = 60 if thorough else 14
+        ntraces = 250 if thorough else 14
         for t in range(1, ntraces + 1):
             limit = rnd.choice([-1, 0, 1, 2, 100, 1024, 1024, 4096, 65535, 65536, 70000])
             single = rnd.random() < 0.2
